@@ -65,6 +65,7 @@ func ruleC19(w *World, r *Report) {
 			}
 		})
 	}
+	var curPath *Path // set while a path of ServeHTTP is walked: a status kept in a variable is a φ at the join
 	isResponse := func(i ssa.Instruction) (status int64, known bool, is bool) {
 		c, ok := i.(ssa.CallInstruction)
 		if !ok {
@@ -108,7 +109,7 @@ func ruleC19(w *World, r *Report) {
 			return 0, false, false
 		}
 		if callee == sendResp && len(cc.Args) > 0 {
-			s, k := constInt(cc.Args[0])
+			s, k := constInt(curPath.resolve(cc.Args[0]))
 			return s, k, true
 		}
 		return 0, false, true
@@ -279,6 +280,8 @@ func ruleC19(w *World, r *Report) {
 			return // e.g. "helper returned (nil, err)" followed by "err == nil"
 		}
 		npaths++
+		curPath = p
+		defer func() { curPath = nil }()
 		var statuses []string
 		var statusVals []int64
 		allKnown := true
